@@ -387,3 +387,108 @@ func Selftest_fmt_writers(a, b, c int64) int64 {
 	}
 	return h*13 + int64(len(labels))
 }
+
+func stMayPanic(k int, xs []int64) int64 {
+	switch k {
+	case 0:
+		panic("explicit")
+	case 1:
+		return xs[len(xs)+2] // index out of range
+	case 2:
+		var p *stPoint
+		return p.X // nil dereference
+	case 3:
+		var i interface{} = "str"
+		return int64(i.(int)) // failed type assertion
+	}
+	return int64(k)
+}
+
+func stGuarded(k int, xs []int64) (res int64, recovered bool) {
+	defer func() {
+		if r := recover(); r != nil {
+			recovered = true
+			res = -7
+			if s, ok := r.(string); ok {
+				res -= int64(len(s))
+			}
+			if e, ok := r.(error); ok && len(e.Error()) > 0 {
+				res -= 100
+			}
+		}
+	}()
+	res = stMayPanic(k, xs) * 3
+	return res, false
+}
+
+func stSwallow(k int) (ok bool) {
+	// the idiom of escape.CompatibleTypes: a panic of the callee means "true"
+	defer func() {
+		if x := recover(); x != nil {
+			ok = true
+		}
+	}()
+	if k%2 == 0 {
+		panic(fmt.Sprintf("bad %d", k))
+	}
+	return false
+}
+
+func stNested(k int, xs []int64) (res int64) {
+	defer func() {
+		// the inner function already recovered, so nothing is pending here
+		if recover() != nil {
+			res = -1000
+		}
+		res++
+	}()
+	inner := func() (r int64) {
+		defer func() { _ = recover() }()
+		r = 5
+		r += stMayPanic(k, xs)
+		return r
+	}
+	return inner() * 10
+}
+
+func stRepanic(k int) (res int64) {
+	defer func() {
+		if r := recover(); r != nil {
+			res = 77
+		}
+	}()
+	func() {
+		defer func() {
+			if r := recover(); r != nil {
+				panic("again") // re-panic from a deferred call: caught by the outer function
+			}
+		}()
+		if k < 2 {
+			panic("first")
+		}
+	}()
+	return int64(k)
+}
+
+// panics, deferred calls and recover: explicit and run-time panics, named results set by the recovering closure,
+// recover outside a panic, nested recovery, re-panic in a deferred call
+func Selftest_panic_recover(a, b, c int64) int64 {
+	xs := []int64{a, b, c}
+	var h int64
+	for k := 0; k < 5; k++ {
+		r, rec := stGuarded((stSmall(a, 5)+k)%5, xs)
+		h = h*31 + r
+		if rec {
+			h += 3
+		}
+		if stSwallow(stSmall(b, 4) + k) {
+			h ^= 0x55
+		}
+		h = h*7 + stNested((stSmall(c, 5)+k)%5, xs)
+		h = h*3 + stRepanic(k%4)
+	}
+	if recover() != nil {
+		h = -1
+	}
+	return h
+}
